@@ -10,6 +10,7 @@ u32 _ZNK8Pistache12StreamCursor4nextEv(u8*);
 u8 _ZNK8Pistache12StreamCursor3eofEv(u8*);
 u8 _ZNK8Pistache12StreamCursor7currentEv(u8*);
 u64 _ZNK8Pistache12StreamCursor9remainingEv(u8*);
+u8* _ZNK8Pistache12StreamCursor6offsetEv(u8*); u8* _ZNK8Pistache12StreamCursor6offsetEm(u8*, u64); u64 _ZNK8Pistache12StreamCursor4diffEm(u8*, u64);
 u8 _ZN8Pistache9match_rawEPKvmRNS_12StreamCursorE(u8*, u64, u8*);
 u8 _ZN8Pistache12match_stringEPKcmRNS_12StreamCursorENS_15CaseSensitivityE(u8*, u64, u8*, u32);
 u8 _ZN8Pistache13match_literalEcRNS_12StreamCursorENS_15CaseSensitivityE(u8, u8*, u32);
@@ -56,7 +57,8 @@ int main(void) {
   u64 rem = _ZNK8Pistache12StreamCursor9remainingEv((u8*)&c);
   VP_OBS("e", e); VP_OBS("rem", rem);
   __CPROVER_assert((e != 0) == (avail == 0) && rem == avail, "eof()/remaining() reflect the delivered bytes");
-  if (avail > 0) { u8 cu = _ZNK8Pistache12StreamCursor7currentEv((u8*)&c); VP_OBS("cu", cu); __CPROVER_assert(cu == b[pos], "current() is the byte at the cursor"); }
+  { u8 cu = _ZNK8Pistache12StreamCursor7currentEv((u8*)&c); VP_OBS("cu", cu); __CPROVER_assert(cu == (avail > 0 ? b[pos] : (u8)0xff), "current() is the byte at the cursor, or (char)EOF when nothing is available"); }
+  __CPROVER_assert(_ZNK8Pistache12StreamCursor6offsetEv((u8*)&c) == b + pos && _ZNK8Pistache12StreamCursor6offsetEm((u8*)&c, pos) == b + pos && _ZNK8Pistache12StreamCursor4diffEm((u8*)&c, 0) == pos, "offset()/offset(n)/diff(n) are plain pointer arithmetic on the get area");
   INVARIANT();
 #elif defined(H_RAW) || defined(H_STRING)
   VP_IN(u64, m, "m"); __CPROVER_assume(m <= 4);
